@@ -135,3 +135,36 @@ def run(ctx):
         return Ty('dict', [Ty('str'), Ty('range', num='int')])
 
     drive.for_each_case(ctx, 'helpers', max(10, ctx.budget // 8), body, gen=gen_helper)
+
+    # equal-as-sets unions in both member orders, inside short-lived container aliases, alternating within one process:
+    # a typed value of one must stay a fixed point whatever was converted under the other just before
+    def body_pairs(i, rng, ty, T):
+        a, b = rng.sample(('int', 'float', 'bool', 'str', 'fraction', 'decimal', 'complex'), 2)
+        wrap = rng.choice(('list', 'dictval', 'tuple', 'seq', 'field'))
+
+        def mk(x, y):
+            u = Ty('union', [Ty(x), Ty(y)])
+            if wrap == 'list': return Ty('list', [u])
+            if wrap == 'seq': return Ty('seq', [u])
+            if wrap == 'dictval': return Ty('dict', [Ty('str'), u])
+            if wrap == 'tuple': return Ty('tup', [u, Ty('int')])
+            from ..tyast import FieldM, ClassM, _serial
+            return Ty('dc', spec=ClassM(f"K{next(_serial)}", [FieldM('inner_val', Ty('list', [u]))], {}))
+
+        t_ab, t_ba = mk(a, b), mk(b, a)
+        for ty2 in (t_ab, t_ba, t_ab, t_ba):
+            T2, err = build_type(ty2, rng)
+            if err is not None:
+                ctx.count('pair_spelling_skipped')
+                continue
+            ctx.count('order_pair_types')
+            for _ in range(2):
+                try:
+                    x = native.native(ty2, rng)
+                except native.Skip:
+                    continue
+                ctx.count('native_values')
+                check_fixed(i, 'pairs', 'native-order-pair', ty2, T2, x)
+            del T2
+
+    drive.for_each_case(ctx, 'pairs', max(20, ctx.budget // 4), body_pairs, gen=lambda c, r: Ty('int'))
